@@ -327,3 +327,125 @@ def _(self, decoder: Obj("Decoder")):
                                                decoder.total_number_of_bits - old(decoder.number_of_bits) + 1]) != 0,
                     decoder.number_of_bits == old(decoder.number_of_bits) - 1
                     - nsn_size(decoder.value, decoder.total_number_of_bits - old(decoder.number_of_bits) + 1)))
+
+
+fields("ArrayType", element_type=Obj("Type"), minimum=Union(Int, Lit('MIN'), NoneT), maximum=Union(Int, Lit('MAX'), NoneT),
+       has_extension_marker=Bool, number_of_bits=Opt(Nat))
+invariant("ArrayType", implies(self.number_of_bits is not None,
+                               py_is_int(self.minimum) and py_is_int(self.maximum) and 0 <= self.minimum
+                               and self.minimum <= self.maximum and self.maximum <= 65535
+                               and self.number_of_bits == blen(self.maximum - self.minimum)))
+
+
+@contract("ArrayType.encode_unbound", abstract=True)
+def _(self, data: ValSeq, encoder: Obj("Encoder")):
+    # assumed (generator based fragment loop, outside the subset): only appends
+    raises(EncodeError)
+    raises(OverflowError)
+    raises(UnicodeEncodeError)
+    raises(ValueError)
+    assigns(encoder)
+    ensures(encoder.chunks_number_of_bits + encoder.number_of_bits
+            >= old(encoder.chunks_number_of_bits) + old(encoder.number_of_bits))
+
+
+@contract("ArrayType.decode_unbound", abstract=True)
+def _(self, decoder: Obj("Decoder")) -> Val:
+    raises(DecodeError)
+    raises(UnicodeDecodeError)
+    raises(ValueError)
+    raises(IndexError)
+    raises(NotImplementedError)
+    assigns(decoder)
+    ensures(decoder.number_of_bits <= old(decoder.number_of_bits) and decoder.value == old(decoder.value))
+
+
+@contract("ArrayType.encode", props=["C05", "C01", "C12"], for_class="any")
+def _(self, data: ValSeq, encoder: Obj("Encoder")):
+    # X.691 20: fixed size: just the elements; bounded size: the count as a constrained whole number (n - lb in
+    # blen(ub - lb) bits for ranges up to 255), then the elements; outside an extensible root: bit 1 and a general length
+    requires(encoder.number_of_bits <= 3000)
+    requires(implies(self.number_of_bits is not None and not self.has_extension_marker,
+                     self.minimum <= len(data) and len(data) <= self.maximum))      # established by check_constraints (C11)
+    use(blen_upper(len(data) - self.minimum))
+    use(blen_mono(len(data) - self.minimum, self.maximum - self.minimum))
+    use(blen_le(self.maximum - self.minimum, 16))
+    use(pow2_mono(blen(len(data) - self.minimum), blen(self.maximum - self.minimum)))
+    raises(EncodeError)
+    raises(OverflowError)
+    raises(UnicodeEncodeError)
+    raises(ValueError)
+    assigns(encoder)
+    ghost_init(g_hdr=0)
+    at_stmt("@loop1", set=dict(g_hdr=encoder.chunks_number_of_bits + encoder.number_of_bits))
+    ensures(encoder.chunks_number_of_bits + encoder.number_of_bits
+            >= old(encoder.chunks_number_of_bits) + old(encoder.number_of_bits))
+    ensures(implies(not self.has_extension_marker and self.number_of_bits is not None and self.minimum == self.maximum,
+                    g_hdr == old(encoder.chunks_number_of_bits) + old(encoder.number_of_bits)))
+    ensures(implies(not self.has_extension_marker and self.number_of_bits is not None and self.minimum != self.maximum
+                    and self.maximum - self.minimum + 1 <= 255,
+                    g_hdr == old(encoder.chunks_number_of_bits) + old(encoder.number_of_bits) + self.number_of_bits))
+    loop(0, invariant=[encoder.chunks_number_of_bits + encoder.number_of_bits
+                       >= old(encoder.chunks_number_of_bits) + old(encoder.number_of_bits)])
+    loop(1, invariant=[encoder.chunks_number_of_bits + encoder.number_of_bits >= g_hdr,
+                       g_hdr >= old(encoder.chunks_number_of_bits) + old(encoder.number_of_bits)])
+
+
+@contract("ArrayType.decode", props=["C05", "C01", "C16", "C08"], for_class="any")
+def _(self, decoder: Obj("Decoder")):
+    refines("Type.decode")
+    opaque("ld_size", "ld_val", "ld_bad")
+    loop(0, invariant=[decoder.number_of_bits <= old(decoder.number_of_bits), decoder.value == old(decoder.value),
+                       decoder.total_number_of_bits == old(decoder.total_number_of_bits)])
+
+
+fields("OctetString", minimum=Union(Int, Lit('MIN'), NoneT), maximum=Union(Int, Lit('MAX'), NoneT),
+       has_extension_marker=Bool, number_of_bits=Opt(Nat))
+invariant("OctetString", implies(self.number_of_bits is not None,
+                                 py_is_int(self.minimum) and py_is_int(self.maximum) and 0 <= self.minimum
+                                 and self.minimum <= self.maximum and self.maximum <= 65535
+                                 and self.number_of_bits == blen(self.maximum - self.minimum)))
+
+
+@contract("OctetString.encode", props=["C05", "C01"], label="aligned")
+def _(self, data: Bytes, encoder: Obj("Encoder")):
+    # X.691 17 (aligned): a fixed size of at most two octets is a plain bit field; a larger fixed size is octet
+    # aligned; a bounded size is the count as a constrained whole number, then the octet-aligned octets
+    requires(encoder.number_of_bits <= 3000)
+    requires(implies(self.number_of_bits is not None and not self.has_extension_marker,
+                     self.minimum <= len(data) and len(data) <= self.maximum))      # established by check_constraints (C11)
+    use(blen_upper(len(data) - self.minimum))
+    use(blen_mono(len(data) - self.minimum, self.maximum - self.minimum))
+    use(blen_le(self.maximum - self.minimum, 16))
+    use(pow2_mono(blen(len(data) - self.minimum), blen(self.maximum - self.minimum)))
+    assigns(encoder)
+    ensures(implies(not self.has_extension_marker and self.number_of_bits is not None and self.minimum == self.maximum
+                    and self.maximum <= 2,
+                    encoder.number_of_bits == old(encoder.number_of_bits) + 8 * len(data)
+                    and encoder.value == old(encoder.value) * pow2(8 * len(data)) + be_val(list(data))))
+    ensures(implies(not self.has_extension_marker and self.number_of_bits is not None and self.minimum == self.maximum
+                    and self.maximum > 2,
+                    encoder.number_of_bits == old(encoder.number_of_bits)
+                    + (8 - (old(encoder.chunks_number_of_bits) + old(encoder.number_of_bits)) % 8) % 8 + 8 * len(data)))
+    ensures(implies(not self.has_extension_marker and self.number_of_bits is not None,
+                    self.maximum <= 2 and self.minimum == self.maximum
+                    or (encoder.chunks_number_of_bits + encoder.number_of_bits) % 8 == 0))
+
+
+@contract("OctetString.decode", props=["C05", "C01", "C16", "C08"], label="aligned")
+def _(self, decoder: Obj("Decoder")) -> Bytes:
+    # the mirror image of encode: the same alignment decisions, every read checked (C16)
+    opaque("ld_size", "ld_val", "ld_bad")
+    raises(OutOfDataError)
+    raises(DecodeError)
+    assigns(decoder)
+    ensures(decoder.number_of_bits <= old(decoder.number_of_bits) and decoder.value == old(decoder.value))
+    ensures(implies(not self.has_extension_marker and self.number_of_bits is not None and self.minimum == self.maximum
+                    and self.maximum <= 2,
+                    len(result) == self.minimum
+                    and decoder.number_of_bits == old(decoder.number_of_bits) - 8 * self.minimum))
+    ensures(implies(not self.has_extension_marker and self.number_of_bits is not None and self.minimum == self.maximum
+                    and self.maximum > 2,
+                    len(result) == self.minimum
+                    and decoder.number_of_bits == old(decoder.number_of_bits) - old(decoder.number_of_bits) % 8
+                    - 8 * self.minimum))
